@@ -180,3 +180,18 @@ pub open spec fn evicts(w: &World, k: int) -> int { if reg_live(w, w.registry, k
 pub open spec fn reg_live(w: &World, rg: Map<int, AnyVal>, k: int) -> bool { rg.dom().contains(k) && !w.slots[rg[k].slot].resolved }
 // rule M4: `format!(..)` (error messages): some string
 #[verifier::external_body] pub fn hx_format() -> (r: String) { unimplemented!() }
+// std::any::type_name::<T>() (diagnostics): some string
+#[verifier::external_body] pub fn hx_type_name<T>() -> (r: &'static str) { unimplemented!() }
+// std::future::ready(v): a future that is complete at once, yields v and does nothing else
+pub struct ReadyFut<T> { pub v: T }
+impl<T> VFuture for ReadyFut<T> {
+    type Output = T;
+    open spec fn pre(&self, w: &World) -> bool { true }
+    open spec fn done(&self, w0: &World, w1: &World, out: &T) -> bool { same_world(w0, w1) && *out == self.v }
+    open spec fn dropped(&self, w0: &World, w1: &World) -> bool { same_world(w0, w1) }
+    open spec fn ready_at(&self) -> nat { 0 }
+    fn await_(self, Tracked(w): Tracked<&mut World>) -> (r: T) { self.v }
+}
+pub fn hx_ready<T>(v: T) -> (r: ReadyFut<T>) ensures r.v == v { ReadyFut { v } }
+// Arc::strong_count / Arc::weak_count (diagnostics, debug assertions): some number; reading it keeps nothing alive
+#[verifier::external_body] pub fn hx_arc_count<T>(t: &T) -> (r: usize) { unimplemented!() }
